@@ -168,6 +168,23 @@ DataSets(sk, U, me, ml) ==
 DataTrees(schema, me, ml) == DataSets(schema, UniqueLeaves(schema), me, ml)
 
 \* ------------------------------------------------------------------ shapes
+\* Sparse levels: a mandatory node of every kind (1 leaf, 2 choice, 3 list with min-elements,
+\* 4 leaf-list with min-elements) at every nesting position of choices within cases (depth
+\* 1..3), in a level that holds nothing else mandatory and no non-presence container; every
+\* enclosing case has another member (t<d>) that can activate it alone.  Once at the top level
+\* and once inside a presence container.
+Num(d) == CASE d = 1 -> "1" [] d = 2 -> "2" [] OTHER -> "3"
+MandNode(kind) ==
+  CASE kind = 1 -> LeafM("m", "string")
+    [] kind = 2 -> ChoiceM("m", << Case("m1", << Leaf("x", "string") >>), Case("m2", << Leaf("y", "string") >>) >>)
+    [] kind = 3 -> ListX("m", "k", 1, 0, << >>, << Leaf("k", "string") >>)
+    [] OTHER    -> LLmm("m", "string", 1, 0)
+RECURSIVE SparseChoice(_, _)
+SparseChoice(kind, d) ==
+  Choice("c" \o Num(d), << Case("a" \o Num(d), << Leaf("t" \o Num(d), "string"),
+                                                   IF d = 1 THEN MandNode(kind) ELSE SparseChoice(kind, d - 1) >>),
+                           Case("b" \o Num(d), << Leaf("u" \o Num(d), "string") >>) >>)
+SparseShape(kind, d) == << SparseChoice(kind, d), PCont("p", << SparseChoice(kind, d) >>) >>
 U1(a) == << << <<a>> >> >>
 DataShape(id) ==
   CASE id = 1 ->   \* mandatory / default under a presence container, nested non-presence containers
@@ -251,5 +268,6 @@ DataShape(id) ==
                   ChoiceD("l", "l", << Case("l", << LeafD("ld", "string", "v"), Leaf("lx", "string"),
                                                     ChoiceD("l2", "l2", << LeafD("l2", "string", "w"), Leaf("l3", "string") >>) >>),
                                        Case("m", << Leaf("mx", "string"), LeafD("md", "string", "x") >>) >>) >>) >>
-NDataShapes == 18
+    [] id \in 19..30 -> SparseShape((id - 19) \div 3 + 1, (id - 19) - 3 * ((id - 19) \div 3) + 1)
+NDataShapes == 30
 =============================================================================
